@@ -138,6 +138,27 @@ func (p *pool) submit(f func()) {
 	}
 }
 
+// submitNil: Go(nil). The unchanged code treats a nil task as a task that does nothing: a worker forked for it calls it,
+// panics inside the caller, recovers (default caller; the harness's custom caller recovers too) and gives its slot back by
+// the deferred decrement; the consumers of the queue skip it. An IOTaskPool wraps it into a non-nil closure that panics.
+func (p *pool) submitNil() bool {
+	done := make(chan struct{})
+	go func() {
+		if p.io != nil {
+			p.io.Go(nil)
+		} else {
+			p.tp.Go(nil)
+		}
+		close(done)
+	}()
+	select {
+	case <-done:
+		return true
+	case <-time.After(deadline):
+		return false
+	}
+}
+
 // submitTimed: Go from a helper goroutine; false if it has not returned by the deadline
 func (p *pool) submitTimed(f func()) bool {
 	done := make(chan struct{})
@@ -194,6 +215,7 @@ type scenario struct {
 	Panics  bool  `json:"panicking_tasks"`
 	PreStop int   `json:"tasks_before_stop"`
 	Racing  int   `json:"submissions_racing_stop"`
+	Nils    bool  `json:"nil_tasks"` // Go(nil) mixed into the overload bursts, and bursts of nil tasks on the idle pool
 	Seed    int64 `json:"seed"`
 }
 
@@ -383,6 +405,41 @@ func runScenario(rep *hx.Report, m *hx.Model, sc scenario) {
 	if !barrier("fresh pool") {
 		return
 	}
+	// nil tasks on the idle pool: bursts of `bound` (then more) Go(nil). They do nothing; afterwards the pool must be as good as
+	// new: counter 0, and the same fill (lock step with the model, which was never told about them: a task that does nothing
+	// leaves no trace at a quiescent point) and barrier as on the fresh pool.
+	nilBurst := func(label string) bool {
+		b := sc.Bound
+		if b < 2 {
+			b = 2
+		}
+		sent := 0
+		counterOff := false
+		for _, n := range []int{b, 3 * b} {
+			for k := 0; k < n; k++ {
+				if !p.submitNil() {
+					oracle("go-hangs", fmt.Sprintf("%s: Go(nil) #%d does not return on an idle pool", label, sent+1))
+					return false
+				}
+				sent++
+			}
+			if !stable(func() bool { return taskpool.VerifConcurrent(p.tp) == 0 && taskpool.VerifQueueLen(p.tp) == 0 }) {
+				oracle("counter-not-restored", fmt.Sprintf("%s: after %d Go(nil) calls the pool is idle but the running-worker counter is %d (queue %d)", label, sent, taskpool.VerifConcurrent(p.tp), taskpool.VerifQueueLen(p.tp)))
+				m = nil // the implementation's counter is off: no lock step any more, the barrier decides about the capacity
+				counterOff = true
+				break
+			}
+		}
+		rep.StatN("nil-tasks.idle-burst", sent)
+		if counterOff {
+			barrier(label)
+			return false
+		}
+		return fill(label) && barrier(label)
+	}
+	if sc.Nils && !nilBurst("after nil tasks") {
+		return
+	}
 	// overload: bursts above the bound from several submitters, queue full, short tasks, some panicking
 	r := rand.New(rand.NewSource(sc.Seed))
 	for round := 0; round < sc.Rounds; round++ {
@@ -402,8 +459,15 @@ func runScenario(rep *hx.Report, m *hx.Model, sc scenario) {
 			wg.Add(1)
 			go func(mine []int, spin int) {
 				defer wg.Done()
-				for _, id := range mine {
+				for k, id := range mine {
 					id := id
+					if sc.Nils && (k+spin)%6 == 2 {
+						if p.io != nil {
+							p.io.Go(nil)
+						} else {
+							p.tp.Go(nil)
+						}
+					}
 					p.submit(p.task(id, func() {
 						if spin == 0 {
 							time.Sleep(30 * time.Microsecond)
@@ -465,6 +529,9 @@ func runScenario(rep *hx.Report, m *hx.Model, sc scenario) {
 		// the model at a quiescent point after any history has the same shape as a fresh one (c19_counter);
 		// the same fill and barrier must behave as on the fresh pool
 		if !fill("after overload") || !barrier("after overload") {
+			return
+		}
+		if sc.Nils && !nilBurst("after overload and nil tasks") {
 			return
 		}
 	}
@@ -682,7 +749,7 @@ func main() {
 	}
 	logging.SetLevel(logging.LevelNone)
 	rep := hx.NewReport("taskpool", *seed)
-	rep.Rule = "task pool scenarios: bound 0-8, queue 0-64, default and custom caller, plain and IO pool; blocked fill (state compared with the model after every Go), barrier of mutually waiting tasks, 0-3 overload rounds of 2-6 submitters x 5-60 short tasks (some panicking) above the bound with the queue full, the same fill and barrier after the overload, then Stop with blocked accepted tasks and Go calls racing it; Async: 1-4 producers x 20-220 functions, every second round behind a blocked function with a backlog of 1100-1400; non-trivial = overload rounds > 0 or submissions racing Stop; distinct = distinct scenario parameters"
+	rep.Rule = "task pool scenarios: bound 0-8, queue 0-64, default and custom caller, plain and IO pool; blocked fill (state compared with the model after every Go), barrier of mutually waiting tasks, 0-3 overload rounds of 2-6 submitters x 5-60 short tasks (some panicking) above the bound with the queue full, the same fill and barrier after the overload; in half of the scenarios nil tasks: Go(nil) mixed into the bursts and bursts of bound / 3 x bound Go(nil) on the idle pool followed by counter check, fill and barrier; then Stop with blocked accepted tasks and Go calls racing it; Async: 1-4 producers x 20-220 functions, every second round behind a blocked function with a backlog of 1100-1400; non-trivial = overload rounds > 0 or submissions racing Stop; distinct = distinct scenario parameters"
 	var m *hx.Model
 	if *model != "" {
 		m = hx.StartModel(*model)
@@ -693,12 +760,12 @@ func main() {
 	queues := []int{0, 1, 2, 5, 64}
 	for i := 0; i < *n && !rep.TooMany() && failures < 5; i++ {
 		sc := scenario{Bound: bounds[r.Intn(len(bounds))], Queue: queues[r.Intn(len(queues))], Custom: r.Intn(3) == 0, IO: r.Intn(5) == 0,
-			Rounds: r.Intn(4), Burst: 5 + r.Intn(56), Subs: 2 + r.Intn(5), Panics: r.Intn(2) == 0, PreStop: r.Intn(12), Racing: []int{0, 0, 3, 8}[r.Intn(4)], Seed: *seed*1009 + int64(i)}
+			Rounds: r.Intn(4), Burst: 5 + r.Intn(56), Subs: 2 + r.Intn(5), Panics: r.Intn(2) == 0, PreStop: r.Intn(12), Racing: []int{0, 0, 3, 8}[r.Intn(4)], Nils: r.Intn(2) == 0, Seed: *seed*1009 + int64(i)}
 		if i == 0 {
-			sc = scenario{Bound: 0, Queue: 0, IO: true, Rounds: 2, Burst: 20, Subs: 3, PreStop: 1, Seed: *seed} // the engine's default IO pool
+			sc = scenario{Bound: 0, Queue: 0, IO: true, Rounds: 2, Burst: 20, Subs: 3, PreStop: 1, Nils: true, Seed: *seed} // the engine's default IO pool
 		}
 		if i == 1 {
-			sc = scenario{Bound: 5, Queue: 2, Rounds: 3, Burst: 60, Subs: 6, Panics: true, PreStop: 6, Seed: *seed}
+			sc = scenario{Bound: 5, Queue: 2, Rounds: 3, Burst: 60, Subs: 6, Panics: true, PreStop: 6, Nils: true, Seed: *seed}
 		}
 		if i == 2 {
 			sc = scenario{Bound: 4, Queue: 64, Custom: true, Rounds: 3, Burst: 40, Subs: 5, PreStop: 20, Racing: 8, Seed: *seed}
@@ -711,7 +778,7 @@ func main() {
 		if *verbose {
 			fmt.Fprintf(os.Stderr, "  %.3fs findings=%d\n", time.Since(t0).Seconds(), len(rep.Findings))
 		}
-		rep.Case(fmt.Sprintf("%d/%d/%v/%v/%d/%d/%d/%v/%d/%d", sc.Bound, sc.Queue, sc.Custom, sc.IO, sc.Rounds, sc.Burst, sc.Subs, sc.Panics, sc.PreStop, sc.Racing), sc.Rounds > 0 || sc.Racing > 0)
+		rep.Case(fmt.Sprintf("%d/%d/%v/%v/%d/%d/%d/%v/%d/%d/%v", sc.Bound, sc.Queue, sc.Custom, sc.IO, sc.Rounds, sc.Burst, sc.Subs, sc.Panics, sc.PreStop, sc.Racing, sc.Nils), sc.Rounds > 0 || sc.Racing > 0)
 		rep.Ops += sc.Rounds * sc.Burst * sc.Subs
 		rep.Stat(fmt.Sprintf("bound.%d", sc.Bound))
 		rep.Stat(fmt.Sprintf("queue.%d", sc.Queue))
@@ -726,6 +793,15 @@ func main() {
 		}
 		if sc.Racing > 0 {
 			rep.Stat("with-submissions-racing-stop")
+		}
+		if sc.Nils {
+			rep.Stat("with-nil-tasks")
+			if sc.IO {
+				rep.Stat("with-nil-tasks.io-pool")
+			}
+			if sc.Custom {
+				rep.Stat("with-nil-tasks.custom-caller")
+			}
 		}
 		if i < 3 {
 			rep.Sample(sc)
